@@ -76,22 +76,6 @@ fn settings_of(sc: &Scenario) -> SerialSettings {
     s
 }
 
-/// wait until neither the library (handler events) nor the bus (bytes on the master side) has moved for `quiet`
-fn until_quiet(pty: &Pty, sink: &Sink, quiet: Duration, got: &mut Vec<u8>) {
-    let mut last = sink.progress();
-    let mut since = Instant::now();
-    let t0 = Instant::now();
-    while since.elapsed() < quiet && t0.elapsed() < Duration::from_secs(5) {
-        let n = pty.read_some(got);
-        let p = sink.progress();
-        if n > 0 || p != last {
-            last = p;
-            since = Instant::now();
-        }
-        std::thread::sleep(Duration::from_millis(2));
-    }
-}
-
 fn run_scenario(sc: &Scenario, sink: &Sink, rt: &tokio::runtime::Runtime) {
     let holes: Vec<Hole> = sc.holes.iter().map(|h| Hole { u: h.u, t: h.t, a: h.a, code: h.code }).collect();
     sink.emit(json!({
@@ -120,7 +104,11 @@ fn run_scenario(sc: &Scenario, sink: &Sink, rt: &tokio::runtime::Runtime) {
     let mut handle = handle;
     let join = rt.spawn(task.run());
     // the task opens and configures the device (raw mode, no echo) before anything is put on the bus
-    std::thread::sleep(Duration::from_millis(250));
+    if !pty.wait_configured(Duration::from_secs(15)) {
+        sink.emit(json!({"e":"stuck","why":"the device was not opened and configured"}));
+        return;
+    }
+    std::thread::sleep(Duration::from_millis(30));
     let mut stray = Vec::new();
     pty.read_some(&mut stray);
 
@@ -141,7 +129,7 @@ fn run_scenario(sc: &Scenario, sink: &Sink, rt: &tokio::runtime::Runtime) {
             _ => continue,
         }
         let mut got = Vec::new();
-        until_quiet(&pty, sink, Duration::from_millis(60), &mut got);
+        pty.until_quiet(&|| sink.progress(), Duration::from_millis(60), &mut got);
         if !got.is_empty() {
             sink.emit(json!({"e":"tx","bytes":bytes_json(&got)}));
         }
